@@ -59,14 +59,14 @@ claimed = {
          "key/value lengths ≤1–2 bytes, ≤2 entries for the round trip", "§0 C28"),
  "C29": ('ResponseHeader and RequestHeader: every sequence of 4/5 Add/Set/Del operations over mixed-case ordinary names vs an ordered-multimap model; 2/3 operations mixing special names (Content-Type, Server/Host, User-Agent, Connection incl. close, Content-Encoding) with ordinary ones vs a model with single-valued special names, also after CopyTo and after writing the header and reading it back',
          'cookies/trailers/Content-Length as operands, normalisation off and longer values outside', "§0 C29"),
- "C30": ("ParseUint accepts exactly the digit strings that fit (all digit strings ≤20/≤24 digits, all byte strings ≤4/≤6), exact value; parseContentLength agrees; AppendUint∘ParseUint for n < 2^14/2^16; hex write/read round trip for every n < 2^60 and rejection of 16+ hex digits",
+ "C30": ("ParseUint accepts exactly the digit strings that fit (all digit strings ≤22/≤26 digits, all byte strings ≤4/≤6), exact value; parseContentLength agrees; AppendUint∘ParseUint for n < 2^14/2^16; hex write/read round trip for every n < 2^60 and rejection of 16+ hex digits",
          "64-bit int only; AppendUint inverse only below 2^appendBits", "§0 C30"),
  "C31": ("IPv4 clauses: ParseIPv4 accepts exactly four dot-separated non-empty decimal fields ≤255 for every byte string of length ≤8/≤10; AppendIPv4→ParseIPv4 round trip with each octet symbolic in turn; the fast RFC 1123 date parser accepts a 29-byte input with one arbitrary byte group only if the interpreted time.Parse(http.TimeFormat) does, with the same instant; bracketed IPv6 literals built from 10 templates with a 1/2-byte arbitrary window agree with the interpreted net/netip.ParseAddr (accepted ⇒ IPv6 for netip; zone-less IPv6 for netip ⇒ accepted)",
          "date round trip on a table of boundary instants only; several date groups symbolic at once outside", "§0 C31"),
  "C32": ("every entry of the byte-class tables equals its RFC predicate (one symbolic byte, exhaustive), header-key canonicalisation vs net/textproto on tokens ≤4 bytes, quoting and HTML-escape definitions on ≤4 bytes",
          "token/HTML lengths ≤4", "§0 C32"),
- "C33": ("PipeConns as a byte stream: every sequential history of 2/3 writes of ≤3/≤4 arbitrary bytes on one end (both directions), optionally interleaved with reads of size 1 or 8, then Close: the other end reads exactly the concatenation in order, then EOF; writes after Close fail",
-         "sequential histories only; deadlines, concurrent use and InmemoryListener outside", "§0 C33"),
+ "C33": ("PipeConns as a byte stream: every sequential history of 2/3 writes of ≤3/≤4 arbitrary bytes on one end (both directions), optionally interleaved with reads of size 1 or 8, then Close: the other end reads exactly the concatenation in order, then EOF; writes after Close fail; InmemoryListener with 1-2 dialers, an accepter loop and a Close at a chosen point of the schedule: successful Dials and Accepts pair up one to one as working pipes and nothing succeeds after Close",
+         "pipes: sequential histories; listener: bounded cooperative schedules; deadlines and concurrent use of one pipe end outside", "§0 C33"),
  "C34": ("response body streams through the real ServeConn loop: an io.ReadCloser with ≤4/≤8 arbitrary bytes × read chunking × declared size exact/unknown × panic in Read (none/1st/2nd) × connection write failure: Close is called exactly once on every path, and without a fault the peer's bytes (fixed or chunked) decode to exactly the stream's bytes",
          "bounds as stated; request streams, stream writers, size-mismatching streams, reset/release without a write outside", "§0 C34"),
  "C40": ("one LBClient call from an arbitrary state with ≤3/≤5 fake clients (symbolic pending, total, penalty ≤ maxPenalty, outcome): routed to the (load, total)-minimal client, penalty step bounded by 300 and undone after 3 s of virtual time; no clients → ErrNoAvailableClients",
